@@ -80,7 +80,11 @@ RULE = ("Round trip: Hypothesis draws the structure of a height map - shape (1xN
         "of write_zygo_dat and Interferogram: a frame of the map's shape or another) is given in 2 of 5 cases.  (e) Failing requests first "
         "(1 in 3): a path in a directory that does not exist, a 1-D map, typ='XYZ', multi_intensity_action='median' are tried and caught "
         "before the valid write / read; nothing is asserted about them.  (f) nnb as True/False, numpy.True_/False_, 1/0.  (g) Value patterns "
-        "'ties' (four distinct values of both signs) and 'outlier' (one dominant sample of the opposite sign, all others 1e-4 of it).")
+        "'ties' (four distinct values of both signs) and 'outlier' (one dominant sample of the opposite sign, all others 1e-4 of it).  "
+        "(h) Round 9: about 1 case in 150 of the three round-trip clauses is a map with more than 2**20 samples (1300x1000, 2100x600, 1200x1100, "
+        "1025x1031, 4099x257, 17x65003, 65003x17, 33x32003; Code V, whose header has no 16-bit size fields, also 3x350003, 350003x3, 2x524309, "
+        "1x1048583: not a multiple of any power-of-two block of samples or rows), with every "
+        "other drawn option, compared sample by sample including the positions of the invalid samples.")
 ASSUMPTIONS = ["the operating system's file layer returns the bytes that were written",
                "numpy float/int conversion and IEEE-754 float32 rounding (relative 2^-24) are correct",
                "the harness' own parser of the Code V header line (tokens GRD/WVL/SSZ/NDA) and of the 834-byte Zygo "
@@ -311,6 +315,8 @@ def _labels(case, ctx, amps):
         ctx.label('1xN' if h == 1 else 'Nx1')
     if h * w > 585:
         ctx.label('more than one 585-sample record' + (', > 2^16 samples' if h * w > 65536 else ''))
+    if h * w > 2 ** 20:
+        ctx.label('more than 2^20 samples')
     if dt in ('f8', 'f4') and case.get('layout', 'C') in ('F', 'T-view', 'rot90') and h > 1 and w > 1:
         ctx.label('2-D map not in C order' + (' with NaN' if case['nan'] != 'none' else ''))
     if dt == 'f4' and case['nan'] != 'none':
@@ -958,7 +964,12 @@ class _File:
             r[...] = 12345.0
 
 
-def _shape_strat(nmax, large=False):
+# more than 2**20 samples; a Zygo header holds the width and the height as 16-bit numbers (<= 65535 per axis), a Code V header has no such limit
+HUGE_SHAPES = [[1300, 1000], [2100, 600], [1200, 1100], [1025, 1031], [4099, 257], [17, 65003], [65003, 17], [33, 32003]]
+HUGE_SHAPES_CODEV = HUGE_SHAPES + [[3, 350003], [350003, 3], [1, 1048583], [2, 524309]]
+
+
+def _shape_strat(nmax, large=False, huge=HUGE_SHAPES):
     ax = U.axis_len(nmax)
     big = st.integers(max(1, nmax // 2), nmax)
     two = st.integers(2, max(2, nmax // 2))       # both axes longer than 1: the memory layouts differ from each other
@@ -966,13 +977,19 @@ def _shape_strat(nmax, large=False):
     if large:
         # beyond one 585-sample record of the Code V writer (sizes with small and with large prime factors), > 2**16 samples
         alts = [st.sampled_from([[25, 24], [1, 587], [587, 1], [31, 37], [2, 593], [40, 40], [64, 64], [1, 4099], [257, 256], [3, 1171]])]
-    return st.one_of(*alts, st.tuples(ax, ax).map(list), st.tuples(two, two).map(list), st.tuples(two, two).map(list), st.tuples(big, big).map(list),
+    base = st.one_of(*alts, st.tuples(ax, ax).map(list), st.tuples(two, two).map(list), st.tuples(two, two).map(list), st.tuples(big, big).map(list),
                      st.tuples(big, ax).map(list), st.tuples(ax, big).map(list), ax.map(lambda n: [n, n]),
                      ax.map(lambda n: [1, n]), ax.map(lambda n: [n, 1]))
+    if not large:
+        return base
+    # a handful of cases per run (about 1 in 150): maps with more than 2**20 samples (files of 5-10 MB), sizes that are not a multiple of any
+    # power-of-two block of samples or rows, thin shapes included - writers / readers that stream a map in blocks
+    hs = st.sampled_from(huge)
+    return st.integers(0, 149).flatmap(lambda k: hs if k == 77 else base)
 
 
-def _map_fields(nmax, amps, nans=NANS, large=False):
-    return {'shape': _shape_strat(nmax, large), 'sign': st.sampled_from(SIGNS), 'nan': st.sampled_from(nans),
+def _map_fields(nmax, amps, nans=NANS, large=False, huge=HUGE_SHAPES):
+    return {'shape': _shape_strat(nmax, large, huge), 'sign': st.sampled_from(SIGNS), 'nan': st.sampled_from(nans),
             'amp': st.sampled_from(amps), 'seed': U.seeds, 'dtype': st.sampled_from(MAP_DTYPES), 'layout': st.sampled_from(MAP_LAYOUTS)}
 
 
@@ -1135,7 +1152,7 @@ def _codev_fields():
 
 def strat_codev(tier):
     # a map without a single valid sample has no scale (SSZ) to write: not generated for Code V
-    d = _map_fields({'quick': 24, 'thorough': 40}[tier], CODEV_AMPS, NANS_SOME_VALID, large=True)
+    d = _map_fields({'quick': 24, 'thorough': 40}[tier], CODEV_AMPS, NANS_SOME_VALID, large=True, huge=HUGE_SHAPES_CODEV)
     d.update(_codev_fields())
     return st.fixed_dictionaries(d)
 
